@@ -67,3 +67,16 @@ CLAIMED.update({
              "Trusted: rustc's MIR dump, /verif/mir2smt and its callee models, z3/cvc5; kani-compiler + CBMC; the narrow-width number impls.",
         technique=_E2 + "; Kani/CBMC at reduced width for the GLV pricing functions", design="C45", engine="mir2smt+kani"),
 })
+
+AMEND.update({
+    "C37": dict(
+        text_append="MIR->SMT part (full width): " + 'the MIR of the real GtBank::reserve_balances for a bank holding one token balance (the fixed-map iterator is abstract and yields that entry; loop unrolled once, bound checked): Ok exactly when numerator <= denominator and (balance == 0 or denominator != 0); then the new balance is floor(balance*numerator/denominator) <= the old one; on Err the balance is unchanged; no panic (every u64 balance, every u128 numerator / denominator). Claim formula of CompleteGtExchange::execute: only its kernel <u64 as MulDiv>::checked_mul_div(balance, gt_amount, total) under the precondition total >= gt_amount the code checks first: Some(amount) with amount = floor(balance*gt_amount/total) <= balance, None exactly for total == 0.',
+        note_append="E2: " + 'CompleteGtExchange::execute itself (account loop, token CPIs) and banks with several balances (same body per entry, documented as not atomic) are outside the subset; claim orders / draining are not decided by E2.' + " Trusted for the E2 part: rustc's MIR dump, /verif/mir2smt and its callee models, z3/cvc5.",
+        technique="Kani/CBMC over arbitrary treasury account images + MIR->SMT-LIB2 (z3, cvc5 cross-check) for the 128-bit reserve / claim arithmetic",
+        engine="kani+mir2smt"),
+    "C38": dict(
+        text_append="MIR->SMT part (full width): " + "calculate_gt_reward_amount (every u128 stake value / APY per second / inverse-cost integral, every i64 duration): Ok exactly when duration >= 0 and neither product exceeds u128; the amount is min(floor(floor(stake*apy/10^20)*integral/10^20), u64::MAX) - saturating, never wrapping, hence monotone in stake and integral; no panic. compute_time_weighted_apy with the 53-bucket loop unrolled 52 times (bound checked), one obligation set per number of full weeks 0..51 and one for >= 52: the result is floor(sum over every elapsed second of that second's weekly bucket / elapsed seconds), weeks past the last bucket using the last one, <= 200%; now <= start gives the first bucket.",
+        note_append="E2: " + 'Assumes gradient entries <= 2*10^20 (the cap), start >= 0 and now = start + elapsed <= i64::MAX (with a negative start and more than i64::MAX elapsed seconds the overflow-checked `now - start` panics), elapsed <= 1701411834604692317 s (beyond it the saturating accumulator can clip). Unstake / exit logic is not encoded by E2.' + " Trusted for the E2 part: rustc's MIR dump, /verif/mir2smt and its callee models, z3/cvc5.",
+        technique="Kani/CBMC exact-average oracle at reduced gradient width and fixed durations + MIR->SMT-LIB2 (z3, cvc5 cross-check) of the same functions at full width per number of full weeks",
+        engine="kani+mir2smt"),
+})
